@@ -38,6 +38,33 @@ Theorem C07_idempotent :
 Proof. exact idempotent_scalars. Qed.
 Print Assumptions C07_idempotent.
 
+(* ---- round 7: a zone-aware date-time (tzinfo a fixed offset of [off] seconds) that is cast to
+   TIMESTAMP comes back with its zone, to whole seconds - it is NOT the naive date-time of the same
+   wall-clock reading; casting twice is casting once; its DATE is its calendar date.  And in general
+   the result of a TIMESTAMP cast is zone-aware exactly when the input is a native zone-aware
+   date-time, with the same offset (text, bytes, numbers, dates and naive values give naive ones). ---- *)
+Theorem C07_timestamp_zone_aware :
+  forall ft fb rp jl jd sc (k : kwargs) (y m d h mi s us off : Z),
+  let cast := parse ft fb rp jl jd sc in
+  cast T_TIMESTAMP k (PAware y m d h mi s us off) = ROk (PAware y m d h mi s 0 off) /\
+  cast T_TIMESTAMP k (PAware y m d h mi s 0 off) = ROk (PAware y m d h mi s 0 off) /\
+  cast T_DATE k (PAware y m d h mi s us off) = ROk (PDate y m d) /\
+  PAware y m d h mi s 0 off <> PDatetime y m d h mi s 0.
+Proof. exact timestamp_aware. Qed.
+Print Assumptions C07_timestamp_zone_aware.
+
+Theorem C07_timestamp_zone_kept :
+  forall ft fb rp jl jd sc (k : kwargs) (x r : pyval),
+  parse ft fb rp jl jd sc T_TIMESTAMP k x = ROk r ->
+  match x, r with
+  | PAware _ _ _ _ _ _ _ off, PAware _ _ _ _ _ _ _ off' => off' = off
+  | PAware _ _ _ _ _ _ _ _, _ => False
+  | _, PAware _ _ _ _ _ _ _ _ => False
+  | _, _ => True
+  end.
+Proof. exact timestamp_zone_kept. Qed.
+Print Assumptions C07_timestamp_zone_kept.
+
 Theorem C07_array_idempotent :
   forall ft fb rp jl jd sc (et : otype) (l : list pyval) (k : kwargs),
   kw_element k = Some et ->
@@ -449,6 +476,19 @@ Example C07_array_date_nonvacuous :
   valid_date 2024 2 29 = true /\ valid_time 23 59 58 = true /\
   parse ft fb rp jl jd sc T_TIMESTAMP nokw (PStr (render_datetime 2024 2 29 23 59 58 250000)) = ROk (PDatetime 2024 2 29 23 59 58 0) /\
   parse ft fb rp jl jd sc T_DATE nokw (PDatetime 2024 2 29 23 59 58 250000) = ROk (PDate 2024 2 29).
+Proof. intros. vm_compute. repeat split; reflexivity. Qed.
+
+(* round 7: zone-aware date-times - an ARRAY<TIMESTAMP> column of a tuple (aware, null, naive); a column declared by the
+   name TIMESTAMP; VARCHAR of an aware value at offset -07:59:30; INTEGER of one raises TypeError *)
+Example C07_zone_aware_nonvacuous :
+  forall ft fb rp jl jd sc,
+  column_default ft fb rp jl jd sc T_ARRAY (mkkw None None None (Some T_TIMESTAMP))
+      (PTuple [PAware 2023 4 18 12 34 56 789012 19800; PNone; PDatetime 2023 4 18 12 34 56 789012])
+    = ROk (PList [PAware 2023 4 18 12 34 56 0 19800; PNone; PDatetime 2023 4 18 12 34 56 0]) /\
+  column_named ft fb rp jl jd sc (TNPlain T_TIMESTAMP) nokw (PAware 1969 12 31 23 59 59 999999 (-28800)) = ROk (PAware 1969 12 31 23 59 59 0 (-28800)) /\
+  parse ft fb rp jl jd sc T_VARCHAR nokw (PAware 2023 4 18 12 34 56 789012 (-28770))
+    = ROk (PStr [50;48;50;51;45;48;52;45;49;56;32;49;50;58;51;52;58;53;54;46;55;56;57;48;49;50;45;48;55;58;53;57;58;51;48]%N) /\
+  parse ft fb rp jl jd sc T_INTEGER nokw (PAware 2023 4 18 12 34 56 0 0) = RErr XType.
 Proof. intros. vm_compute. repeat split; reflexivity. Qed.
 
 (* FlatColumn: the witnesses of F-C07-3 / F-C07-4, an untyped column, a default that cannot be cast *)
